@@ -166,9 +166,10 @@ def shuffleSpec : Spec :=
     ⟨"no_clauses_permutation", ["--no-clauses-permutation", "-c"], .flag⟩,
     ⟨"verbose", ["--quiet", "-q"], .flag⟩], none⟩
 
-/-- the names of the transformation sub-commands (`get_transformation_helpers()`), from the generated tables -/
+/-- the names of the transformation sub-commands (`get_transformation_helpers()`: the subclasses of
+`TransformationHelper`, the base class excluded), from the generated tables -/
 def transformationNames : List String :=
-  (Gen.helpers.filter (fun h => h.kind == "transformation")).map (·.name)
+  (Gen.helpers.filter (fun h => h.kind == "transformation" && h.cls != "TransformationHelper")).map (·.name)
 
 /-- the parser of `kthlist2pebbling.setup_command_line` -/
 def k2pSpec : Spec :=
